@@ -278,7 +278,11 @@ func WriteEvidence(path string, r *RunResult, tier string, seed int, wall time.D
 			"trusted_base":        []string{"go/types, go/ssa, VTA call graph of golang.org/x/tools v0.50.0", "go1.26.8 standard library sources", "oracle tables transcribed from RFC 9110/9111/5861/3986 (hcv/oracle.go)"},
 			"exhaustive":          false,
 		},
-		Assumptions: r.Prop.Assumptions,
+		Assumptions: append([]string{
+			"the call graph (VTA seeded by CHA, refined for function values that trace completely to closure creations) is complete: the repository uses no reflect/unsafe/linkname",
+			"anchors (roles of functions and types) are resolved semantically on every run; an unresolved anchor or an unrecognised shape fails the check instead of passing",
+			"non-test sources of the default build configuration (thorough adds GOARCH=386, windows, darwin, the benchmark build tag and a CHA call graph)",
+		}, r.Prop.Assumptions...),
 		WallS:       wall.Seconds(),
 		Violations:  len(r.Violations),
 	}
